@@ -4,6 +4,11 @@
 //! rho (old id -> new id) can be read off the renumbered document without trusting any of the
 //! code under test. The oracle is generic (it needs only the document, the bookmark list and the
 //! start value), so a replay file is just that triple.
+//!
+//! Families: A small graphs over every number set, B full page trees with every reference
+//! placement, D references below up to 1000 (thorough 2000) levels of nested containers,
+//! H documents with a history (earlier renumbering, deletions, additions, saving, stale max_id)
+//! compared against the state right before the call, W hundreds to thousands of objects.
 use lopdf::{Bookmark, Dictionary, Document, Object, ObjectId, Stream};
 use serde_json::{json, Value};
 use std::collections::{BTreeMap, BTreeSet, HashMap};
@@ -1367,6 +1372,102 @@ fn family_d(run: &Run, shv: &Shared) {
 }
 
 // ---------------------------------------------------------------------------------------------
+// family W: many objects
+
+/// `n` tagged objects with numbers first, first+stride, ..: "star" = the catalog's /All array
+/// references every object; "chain" = object i references object i+1, the last one the first;
+/// "pages" = a flat page tree whose page numbers DEcrease in page order, every page referencing
+/// its neighbour.
+fn build_wide(form: &str, n: usize, first: u32, stride: u32) -> Document {
+    let id = |i: usize| -> ObjectId { (first + stride * i as u32, (i % 2) as u16) };
+    let mut doc = Document::with_version("1.5");
+    let tag = |i: usize| ("Tag", Object::Integer(100 + i as i64));
+    match form {
+        "star" | "chain" => {
+            let mut c = dict(vec![("Type", name("Catalog")), tag(0)]);
+            if form == "star" {
+                c.set("All", Object::Array((0..n).map(|i| rf(id(i))).collect()));
+            } else {
+                c.set("Next", rf(id(1 % n)));
+            }
+            doc.objects.insert(id(0), Object::Dictionary(c));
+            for i in 1..n {
+                let mut d = dict(vec![tag(i), ("Back", rf(id(0)))]);
+                if form == "chain" {
+                    d.set("Next", rf(id((i + 1) % n)));
+                }
+                doc.objects.insert(id(i), Object::Dictionary(d));
+            }
+        }
+        "pages" => {
+            assert!(n >= 3);
+            // roles: 0 catalog, 1 root, 2.. pages; page j (in page order) gets the (k-1-j)-th page number
+            let k = n - 2;
+            let page = |j: usize| id(2 + (k - 1 - j));
+            doc.objects.insert(id(0), Object::Dictionary(dict(vec![("Type", name("Catalog")), tag(0), ("Pages", rf(id(1)))])));
+            doc.objects.insert(
+                id(1),
+                Object::Dictionary(dict(vec![("Type", name("Pages")), tag(1), ("Kids", Object::Array((0..k).map(|j| rf(page(j))).collect())), ("Count", Object::Integer(k as i64))])),
+            );
+            for j in 0..k {
+                doc.objects.insert(page(j), Object::Dictionary(dict(vec![("Type", name("Page")), tag(2 + j), ("Parent", rf(id(1))), ("Next", rf(page((j + 1) % k)))])));
+            }
+        }
+        other => panic!("unknown wide form {}", other),
+    }
+    doc.trailer.set("Root", rf(id(0)));
+    doc.max_id = first + stride * (n as u32 - 1);
+    doc
+}
+
+fn family_w(run: &Run) {
+    let mut sizes = vec![100usize, 255, 256, 257, 1000];
+    if run.thorough {
+        sizes.extend([512, 1023, 1024, 1025, 4097]);
+    }
+    let mut work: Vec<(&str, usize, u32, u32)> = vec![];
+    for &n in &sizes {
+        for form in ["star", "chain", "pages"] {
+            for (first, stride) in [(1u32, 1u32), (3, 1), (5, 3)] {
+                work.push((form, n, first, stride));
+            }
+        }
+    }
+    util::par_for(work.len(), |w| {
+        let (form, n, first, stride) = work[w];
+        let doc = build_wide(form, n, first, stride);
+        let prep = prepare(doc).unwrap_or_else(|e| {
+            eprintln!("MACHINERY: wide generator: {}", e);
+            std::process::exit(3)
+        });
+        let max = first + stride * (n as u32 - 1);
+        let mut t = Tally::default();
+        for start in start_values(n, first, max) {
+            let out = run_case(&prep, &[], start);
+            t.cases += 1;
+            t.docs += 1;
+            if out.identity {
+                t.identity += 1;
+            } else if start.is_some() {
+                t.nontrivial += 1;
+                if out.collision {
+                    t.collision += 1;
+                }
+            }
+            if out.reordered {
+                t.reordered += 1;
+            }
+            if out.failed() {
+                t.failing += 1;
+                let gen = json!({"family": "W", "wide": {"form": form, "n": n, "first": first, "stride": stride}});
+                run.fail(None, case_json(&gen, None, &[], start), &vharness::run::truncate(&out.text(), 2000), EXPECTED);
+            }
+        }
+        flush(run, &t, "W");
+    });
+}
+
+// ---------------------------------------------------------------------------------------------
 // family H: the document has a history before the renumbering under test
 
 #[derive(Clone, Debug, PartialEq)]
@@ -1387,6 +1488,8 @@ enum Pre {
     SaveStream,
     Prune,
     GetPages,
+    /// reverse the Kids array of the root Pages node through the public fields
+    ReverseKids,
 }
 
 impl Pre {
@@ -1403,6 +1506,7 @@ impl Pre {
             Pre::SaveStream => json!({"op": "save_to_stream"}),
             Pre::Prune => json!({"op": "prune_objects"}),
             Pre::GetPages => json!({"op": "get_pages"}),
+            Pre::ReverseKids => json!({"op": "reverse_root_kids_via_fields"}),
         }
     }
     fn from_json(v: &Value) -> Pre {
@@ -1418,6 +1522,7 @@ impl Pre {
             "save_to_stream" => Pre::SaveStream,
             "prune_objects" => Pre::Prune,
             "get_pages" => Pre::GetPages,
+            "reverse_root_kids_via_fields" => Pre::ReverseKids,
             other => {
                 eprintln!("MACHINERY: unknown pre-op {}", other);
                 std::process::exit(3);
@@ -1492,6 +1597,17 @@ fn state_after(base: &Document, bms: &[Bm], pre: &[Pre]) -> Result<Document, Str
                 Pre::GetPages => {
                     let _ = d.get_pages();
                 }
+                Pre::ReverseKids => {
+                    let root = match d.trailer.get(b"Root") {
+                        Ok(Object::Reference(r)) => d.objects.get(r).and_then(dict_of).and_then(|c| c.get(b"Pages").ok()).and_then(|p| p.as_reference().ok()),
+                        _ => None,
+                    };
+                    if let Some(Object::Dictionary(pages)) = root.and_then(|r| d.objects.get_mut(&r)) {
+                        if let Ok(Object::Array(kids)) = pages.get_mut(b"Kids") {
+                            kids.reverse();
+                        }
+                    }
+                }
             }
             Ok(())
         });
@@ -1559,6 +1675,11 @@ fn pre_sequences(sh: &Shape, n: usize, min: u32, max: u32) -> Vec<Vec<Pre>> {
     v.push(vec![Pre::Renumber(Some(1000)), Pre::Add]);
     v.push(vec![Pre::Renumber(Some(2)), Pre::Renumber(Some(5))]);
     v.push(vec![Pre::Renumber(Some(3)), Pre::GetPages, Pre::InsertHigh]);
+    if sh.k >= 2 {
+        v.push(vec![Pre::ReverseKids]);
+        v.push(vec![Pre::GetPages, Pre::ReverseKids]);
+        v.push(vec![Pre::Renumber(Some(2)), Pre::GetPages, Pre::ReverseKids]);
+    }
     if let Some(t) = shared {
         v.push(vec![Pre::DeleteTag(t), Pre::Add]);
         v.push(vec![Pre::Renumber(Some(3)), Pre::DeleteTag(t)]);
@@ -1668,6 +1789,9 @@ fn replay(run: &Run, path: &std::path::Path) -> ! {
     let case = vharness::run::read_replay(path);
     let doc = if case.get("doc").is_some() {
         doc_from_json(&case["doc"])
+    } else if case["gen"].get("wide").is_some() {
+        let w = &case["gen"]["wide"];
+        build_wide(w["form"].as_str().unwrap(), w["n"].as_u64().unwrap() as usize, w["first"].as_u64().unwrap() as u32, w["stride"].as_u64().unwrap() as u32)
     } else if case["gen"].get("shape").is_some() {
         let sh = Shape::from_json(&case["gen"]["shape"]);
         let ids: Vec<ObjectId> = case["gen"]["ids"].as_array().unwrap().iter().map(parse_id).collect();
@@ -1765,7 +1889,11 @@ fn main() {
          numberings x every history out of: one earlier renumbering with every start value; delete_object of Info / shared / orphan / stream / last \
          page; delete_pages first / last; add_object; objects.insert far above max_id; objects.remove of the last object; max_id set to 0 / max+100 \
          / u32::MAX; save_to as table / stream; prune_objects; get_pages; and 10 two- and three-step combinations - then every start value computed \
-         on the resulting state (so 'start = current first number after an earlier renumbering' moves nothing) x dangling refs off/on x bookmark lists",
+         on the resulting state (so 'start = current first number after an earlier renumbering' moves nothing) x dangling refs off/on x bookmark lists; \
+         with >= 2 pages also: root Kids reversed through the public fields, alone, after get_pages, and after renumbering + get_pages. Family W \
+         (many objects): 100, 255, 256, 257, 1000 (thorough: + 512, 1023, 1024, 1025, 4097) objects as a star (one array referencing all), a \
+         reference chain closed to a ring, or a flat page tree whose page numbers decrease in page order x numbers (first, stride) in \
+         {(1,1),(3,1),(5,3)} with alternating generations x every start value, no bookmarks",
     );
     run.assume("family H compares the renumbering under test against the document state right before that call (objects, trailer, bookmark targets), not against the generated document; objects added by the history carry fresh tags");
     run.assume("deeply nested objects (family D) exist only in memory: lopdf's parser rejects nesting beyond its own limit, the statement is about Document values");
@@ -1790,6 +1918,8 @@ fn main() {
     family_d(&run, &shv);
     run.set("wall_family_d_s", json!((run.elapsed() * 10.0).round() / 10.0));
     family_h(&run, &shv);
+    run.set("wall_family_h_s", json!((run.elapsed() * 10.0).round() / 10.0));
+    family_w(&run);
     run.exhaustive(true);
     run.finish();
 }
